@@ -291,6 +291,18 @@ def check(pid, tier, seed):
         oracle = [l.split("\t") for l in read_lines(os.path.join(wdir, "oracle.tsv"))]
         requests = read_lines(os.path.join(wdir, "requests.txt"))
         impl = read_lines(os.path.join(wdir, "impl.txt"))
+        # independent reference implementations (Python) over files the harness dumped
+        py = os.path.join(ROOT, "pyref", f"{pid}.py")
+        if os.path.exists(py) and harness_ok:
+            rc, out, _ = sh([sys.executable, py, wdir], cwd=ROOT, timeout=900)
+            for line in out.split("\n"):
+                if line.startswith("FAIL\t"):
+                    oracle.append(line.split("\t")[1:4])
+                elif line.startswith("EVALS "):
+                    stats["oracle_evals"] = stats.get("oracle_evals", 0) + int(line.split()[1])
+                    stats["hist"]["pyref_files_checked"] = int(line.split()[1])
+            if rc != 0:
+                notes.append(f"pyref/{pid}.py failed rc={rc}: {out[-400:]}")
         if requests:
             rc, model, ddt = run_driver(wdir)
             if rc != 0:
